@@ -116,7 +116,7 @@ def run_tlc(module, cfg, pid, tag, workers=4, timeout=900, simulate=None, seed=N
         res["trace_text"] = "\n".join(other[-80:])
     # per-action coverage: lines like "<Action line ... of module X>: 12:34"
     cov = {}
-    for m in re.finditer(r"^<(\w+) line \d+, col \d+ to line \d+, col \d+ of module (\w+)>: (\d+):(\d+)", txt, re.M):
+    for m in re.finditer(r"^<(\w+) line \d+, col \d+ to line \d+, col \d+ of module (\w+)(?: \([\d ]+\))?>: (\d+):(\d+)", txt, re.M):
         cov[m.group(1)] = cov.get(m.group(1), 0) + int(m.group(4))
     res["coverage"] = cov
     return res
